@@ -19,8 +19,7 @@ def r1(ctx, prog):
     fre = [c for c in f.calls("mi_free_block_local")]
     ctx.check(R, len(arm) == 1 and len(col) >= 1 and len(fre) == 1, f.where(), "the three steps are present", key="C08.R1:shape")
     if arm and col and fre:
-        ok = shared.enum_arg_is(f, arm[0], 1, "MI_USE_DELAYED_FREE") and f.cv(rl.arg(f, arm[0], 2)) == 0
-        ctx.check(R, ok, f.where(arm[0]), "re-arm with MI_USE_DELAYED_FREE, not overriding NEVER", key="C08.R1:arm")
+        shared.rearm_respects_never(ctx, R, prog)
         for c in col:
             w = cfg.guarded(cfg.pt(c), rl.fact_call_true(f, "_mi_page_try_use_delayed_free"))
             ctx.check(R, w is None, f.where(c), "collect only after the re-arm succeeded", key="C08.R1:order1", witness=w)
